@@ -16,4 +16,9 @@ type (
 	Locker    = rsync.Locker
 	Map       = rsync.Map
 	Pool      = rsync.Pool
+	// Cond is not modelled: it is aliased so that code mentioning it compiles; waiting on one
+	// inside an execution blocks the run token and trips the watchdog (framework error).
+	Cond = rsync.Cond
 )
+
+var NewCond = rsync.NewCond
